@@ -173,7 +173,11 @@ func (c *RepoCache) lock(events chan BuildEvent) error {
 		return err
 	}
 
-	f, err := c.repo.LocalStorage().Create(lockfile)
+	// Write the pid aside and move it in place, so that a process dying half-way never
+	// leaves an empty or partial lock file, which nobody could ever clean.
+	tmpLockfile := lockfile + ".tmp"
+
+	f, err := c.repo.LocalStorage().Create(tmpLockfile)
 	if err != nil {
 		return err
 	}
@@ -185,7 +189,12 @@ func (c *RepoCache) lock(events chan BuildEvent) error {
 		return err
 	}
 
-	return f.Close()
+	err = f.Close()
+	if err != nil {
+		return err
+	}
+
+	return c.repo.LocalStorage().Rename(tmpLockfile, lockfile)
 }
 
 func (c *RepoCache) Close() error {
